@@ -170,6 +170,25 @@ def handle (j : Json) : Json :=
           (match m with | .ok ws => ws.length == implWs.length | _ => false)
         mk ((exact || modTies) && implCommit == modelCommit) (outJ (fun ws => Json.arr (ws.map wlJ).toArray) m) viol
           (if !nodeOk then "invalid-node" else if exact then "deploy" else if modTies then "deploy-mod-ties" else "deploy-mismatch") false
+  else if op == "capacity" then
+    if jhas impl "seterr" then
+      mk (!info.validate) (Json.mkObj [("validate", info.validate)]) [] "invalid-node" true
+    else
+      let run := fun o => nodeDeployCapacity info B maxShare raw o
+      let cands := orders info.cap.numa []
+      let reqOk := match raw.validate with | .ok _ => true | _ => false
+      let canon := fun (c : Int) => if 0 < c then c else 0    -- capacity ≤ 0: node left out of the answer
+      if crashed then
+        let (m, ok) := firstGood cands run (crashAgree impl)
+        mk ok (outJ ji m) (if nodeOk && cfgOk && reqOk then [crashTag] else []) "crash" false
+      else if jhas impl "err" then
+        let e := jstr (jget impl "err")
+        let (m, ok) := firstGood cands run (fun o => match o with | .err e' => e == e' | _ => false)
+        mk ok (outJ ji m) [] ("capacity-err:" ++ e) true
+      else
+        let c := jint (jget impl "cap")
+        let (m, ok) := firstGood cands run (fun o => match o with | .ok c' => canon c' == c | _ => false)
+        mk (ok && jint (jget impl "total") == c) (outJ ji m) [] (if !nodeOk then "invalid-node" else "capacity") (decide (c ≤ 0))
   else if op == "realloc" then
     if jhas impl "seterr" then
       mk (!info.validate) (Json.mkObj [("validate", info.validate)]) [] "invalid-node" true
